@@ -223,6 +223,32 @@ def pending_bookkeeping(ctx):
         Rinv = msg_region(a, "Invalidated")
         ctx.need(Rok and Rinv, f"Ok and Invalidated handlers in {lab}")
         muts = set_mutations(a, "unavailable_dependencies")
+        arg_atoms_of = {}
+        # ... and those made on the looked-up set inside a closure: `pending.get_mut(&kind).map_or(false, |set| set.remove(&target_id))`
+        for bb, t in a.calls():
+            if not re.search(r"Option::<.*>::(map|map_or|map_or_else|is_some_and|and_then|into_iter|iter_mut)(::<.*>)?$", callee_decl(t)) or not t["args"]:
+                continue
+            at0 = a.prov.operand_atoms(t["args"][0], interproc=False)
+            if not atom_has_field(at0, "unavailable_dependencies", "TargetActorHelper"):
+                continue
+            for x in t["args"][1:]:
+                l = operand_local(x)
+                for kind, st, _ in (a.prov.direct_producers(l) if l is not None else ()):
+                    if kind != "agg" or st["rv"].get("closure") not in ctx.f.bodies:
+                        continue
+                    cb = ctx.f.bodies[st["rv"]["closure"]]
+                    caps = dict(zip(st["rv"].get("fields") or [], st["rv"]["ops"]))
+                    for cbb, ct in cb.calls():
+                        m = re.search(r"(HashSet|HashMap)::<.*?>::(insert|remove|clear|retain|drain|extend|take|replace|remove_entry)\b", callee_decl(ct))
+                        if not m or not ct["args"] or ("param", 2) not in cb.prov.operand_atoms(ct["args"][0], interproc=False):
+                            continue
+                        arg_at = set()
+                        for y in ct["args"][1:2]:
+                            for a_ in cb.prov.operand_atoms(y, interproc=False):
+                                if a_[0] == "field" and a_[2] in caps:
+                                    arg_at |= a.prov.operand_atoms(caps[a_[2]], interproc=False)
+                        muts.append((bb, t, m.group(2), at0))
+                        arg_atoms_of[bb] = arg_at
         removes = [m for m in muts if m[2] == "remove"]
         inserts = [m for m in muts if m[2] == "insert"]
         others = [m for m in muts if m[2] not in ("remove", "insert")]
@@ -230,9 +256,18 @@ def pending_bookkeeping(ctx):
             ctx.bad(f"{lab}/{meth}", [site(a, bb)], f"unexpected mutation `{meth}` of the pending-dependency sets", props=["C01"])
         if not [m for m in removes if m[0] in Rok]:
             ctx.bad(f"{lab}/Ok.remove", [a.loc()], "the Ok handler does not remove the acknowledged dependency from the pending set", props=["C01"])
+        # `match pending.get_mut(&kind) { Some(set) => { set.remove(&target_id); } None => warn }`: there is no set of that kind to shrink on the None edge
+        no_set = set()
+        for e in a.edges:
+            l = e.label
+            if e.src in Rok and l is not None and l[0] == "variant" and set(l[2]) == {"None"} and l[3] and l[1] and path_ends(l[1], "Option"):
+                oat = a.prov.atoms(l[3]["local"], interproc=False)
+                if atom_has_field(oat, "unavailable_dependencies", "TargetActorHelper") and msg_field_atoms("Ok", "kind")(oat) and \
+                        any(re.search(r"HashMap::<.*>::(get_mut|get)$", c) for c in atom_callres(oat)):
+                    no_set.add((e.src, e.dst))
         for (bb, t, meth, at) in removes:
-            arg_at = a.prov.operand_atoms(t["args"][1], interproc=False)
-            good = bb in Rok and msg_field_atoms("Ok", "target_id")(arg_at) and msg_field_atoms("Ok", "kind")(at) and _must_pass(a, Rok, bb)
+            arg_at = arg_atoms_of[bb] if bb in arg_atoms_of else a.prov.operand_atoms(t["args"][1], interproc=False)
+            good = bb in Rok and msg_field_atoms("Ok", "target_id")(arg_at) and msg_field_atoms("Ok", "kind")(at) and _must_pass(a, Rok, bb, exempt=no_set)
             ctx.check(good, f"{lab}/Ok.remove", [site(a, bb)], props=["C01"], found=
                       "a pending dependency is removed outside the Ok handler, not by the message's own kind and target id, or not on every path of the handler")
         if not [m for m in inserts if m[0] in Rinv]:
@@ -240,7 +275,7 @@ def pending_bookkeeping(ctx):
         subs = kind_subregions(a, Rinv, "Invalidated")
         generic, covered = False, set()
         for (bb, t, meth, at) in inserts:
-            arg_at = a.prov.operand_atoms(t["args"][1], interproc=False)
+            arg_at = arg_atoms_of[bb] if bb in arg_atoms_of else a.prov.operand_atoms(t["args"][1], interproc=False)
             good = bb in Rinv and msg_field_atoms("Invalidated", "target_id")(arg_at) and msg_field_atoms("Invalidated", "kind")(at)
             # the insert must happen on every path through the handler
             if good:
@@ -269,8 +304,9 @@ def pending_bookkeeping(ctx):
             ctx.bad(f"{short(b.name)}/{meth}", [site(b, bb)], "the pending-dependency sets are mutated outside an actor's Ok/Invalidated handlers", props=["C01"])
 
 
-def _must_pass(body, region, bb):
-    """every path entering `region` and leaving it passes block bb: removing bb disconnects region entry from region exits"""
+def _must_pass(body, region, bb, exempt=()):
+    """every path entering `region` and leaving it passes block bb: removing bb disconnects region entry from region exits (edges (src, dst) in `exempt` are
+    not followed)"""
     live = body.reachable_blocks()
     entries = {e.dst for e in body.edges if e.dst in region and e.src not in region and e.src in live}
     exits = {e.dst for e in body.edges if e.src in region and e.dst not in region}
@@ -282,7 +318,7 @@ def _must_pass(body, region, bb):
         while st:
             x = st.pop()
             for e in body.succ.get(x, ()):
-                if e.dst == bb:
+                if e.dst == bb or (e.src, e.dst) in exempt:
                     continue
                 if e.dst in exits:
                     return False
